@@ -111,6 +111,9 @@ func genSnap(r *Rng, tier string, idx int, prop string) *Plan {
 			// everything is deleted: the next snapshot is that of an empty keyspace
 			p.Ops = append(p.Ops, Op{C: r.Intn(2), Args: []string{"FLUSHALL"}})
 		}
+		if prop == "C10" && sidx > 0 && r.Chance(0.3) {
+			p.Ops = append(p.Ops, Op{Kind: "stepback", N: int64(Pick(r, []int{1, 7, 500, 3000, 100000, 10000000}))})
+		}
 		if prop == "C10" && r.Chance(0.6) {
 			mode := Pick(r, []string{"kill", "kill", "power", "power", "eio", "enospc", "oskill", "oskill"})
 			p.Ops = append(p.Ops, Op{Kind: "crash", N: int64(r.Intn(11)), S: mode})
@@ -156,34 +159,35 @@ type snapRec struct {
 }
 
 type snapRun struct {
-	t           *testing.T
-	p           *Plan
-	prop        string
-	s           *Sim
-	dice        *Dice
-	o           *Outcome
-	root        string
-	gen         int
-	inst        *Instance
-	disk        *Disk
-	tcp, emb    *Client
-	tcpdb       int64
-	embdb       int64
-	good        []snapRec // completed snapshots, oldest first (survive restarts)
-	inflight    *snapRec  // snapshot attempt that was interrupted by a crash
-	doneSeen    int
-	names       []string
-	checks      int
-	skipped     int
-	lastSave    int64 // expected LASTSAVE (ms), 0 = none
-	faultLog    []string
-	disk0site   string
-	lastAttempt int64
-	alts        []snapRec
-	lastCopy    *snapRec
-	writesOK    int
-	sinceSnap   int
-	errSite     string
+	t         *testing.T
+	p         *Plan
+	prop      string
+	s         *Sim
+	dice      *Dice
+	o         *Outcome
+	root      string
+	gen       int
+	inst      *Instance
+	disk      *Disk
+	tcp, emb  *Client
+	tcpdb     int64
+	embdb     int64
+	good      []snapRec // completed snapshots, oldest first (survive restarts)
+	inflight  *snapRec  // snapshot attempt that was interrupted by a crash
+	doneSeen  int
+	names     []string
+	checks    int
+	skipped   int
+	lastSave  int64 // expected LASTSAVE (ms), 0 = none
+	faultLog  []string
+	disk0site string
+	attempts  map[int64]bool // clock readings (ms) at which a snapshot was attempted
+	stepped   bool           // the clock was stepped backwards in this run
+	alts      []snapRec
+	lastCopy  *snapRec
+	writesOK  int
+	sinceSnap int
+	errSite   string
 }
 
 func (a *snapRun) fail(sig, detail string) {
@@ -252,7 +256,15 @@ func (a *snapRun) boot(dir string) bool {
 	return true
 }
 
-func (a *snapRun) dump() map[string]string { return DataMap(a.inst.DB.VerifDump(), false) }
+func (a *snapRun) dump() map[string]string {
+	m := DataMap(a.inst.DB.VerifDump(), false)
+	if a.stepped {
+		// a snapshot does not hold keys whose deadline has passed when it is taken. With a clock that only moves
+		// forward, stripping them at restore time is enough; once it was stepped back they are stripped here too.
+		m = stripExpiredMap(m, nowMs()-1)
+	}
+	return m
+}
 
 func stripMap(m map[string]string, now int64) map[string]string {
 	out := map[string]string{}
@@ -460,6 +472,11 @@ func (a *snapRun) lossyAvoid(args []string) bool {
 func (a *snapRun) run() {
 	p := a.p
 	var arm *Op
+	for _, op := range p.Ops {
+		if op.Kind == "stepback" {
+			a.stepped = true // from the start: what the first snapshots hold matters once the clock has gone back
+		}
+	}
 	for i := 0; i < len(p.Ops) && a.o.Sig == ""; i++ {
 		op := p.Ops[i]
 		switch op.Kind {
@@ -480,6 +497,11 @@ func (a *snapRun) run() {
 		case "advance":
 			a.s.AdvanceSync(time.Duration(op.N) * time.Millisecond)
 			a.names = append(a.names, "adv")
+		case "stepback":
+			// the wall clock is corrected backwards (NTP, migration): snapshots taken afterwards carry earlier times
+			a.s.StepClock(-time.Duration(op.N) * time.Millisecond)
+			a.stepped = true
+			a.names = append(a.names, "clock-step")
 		case "crash":
 			c := op
 			arm = &c
@@ -503,7 +525,7 @@ func (a *snapRun) run() {
 			}
 			got := r.Reply.Int
 			// the handler may report seconds or milliseconds; accept either unit of the right instant
-			if got != want && got != want/1000 {
+			if !a.lastSaveIs(got) {
 				a.fail("lastsave/wrong", fmt.Sprintf("LASTSAVE = %d but the snapshot last taken/restored was made at %d ms (%d completed)", got, want, len(a.good)))
 			}
 		case "auto-fault":
@@ -565,12 +587,16 @@ func (a *snapRun) run() {
 }
 
 func (a *snapRun) save(arm *Op, rest []Op) {
-	if nowMs() == a.lastAttempt {
+	for a.attempts[nowMs()] {
 		// snapshot directories are named after the millisecond: two attempts in the same millisecond
-		// share one directory. The harness does not explore that corner (see DESIGN.md §10).
+		// share one directory. The harness does not explore that corner (see DESIGN.md §10) - neither
+		// directly nor by stepping the clock back onto the millisecond of an earlier attempt.
 		a.s.AdvanceSync(time.Millisecond)
 	}
-	a.lastAttempt = nowMs()
+	if a.attempts == nil {
+		a.attempts = map[int64]bool{}
+	}
+	a.attempts[nowMs()] = true
 	state := a.dump()
 	at := nowMs()
 	before := a.doneSeen
@@ -632,7 +658,7 @@ func (a *snapRun) save(arm *Op, rest []Op) {
 		a.errSite = a.disk.FiredAt
 		r := a.emb.DoSync("LASTSAVE")
 		a.pinAlt(r)
-		if !r.IsError() && r.Reply.Kind == RInt && r.Reply.Int != a.lastSave && r.Reply.Int != a.lastSave/1000 {
+		if !r.IsError() && r.Reply.Kind == RInt && !a.lastSaveIs(r.Reply.Int) {
 			a.fail("lastsave-moved/"+a.disk.FiredAt, fmt.Sprintf("a snapshot attempt failed with %s at %s but LASTSAVE moved from %d to %d", a.disk.Mode, a.disk.FiredAt, a.lastSave, r.Reply.Int))
 		}
 	}
@@ -694,6 +720,25 @@ func (a *snapRun) saveConc(rec *snapRec, rest []Op) {
 	if s.Overlap {
 		s.Probe("copy-overlaps-mutation")
 	}
+}
+
+// lastSaveIs: got is the time of the snapshot last taken or restored, in seconds or milliseconds (the handler may
+// report either unit). Once the clock has been stepped backwards "the time of the snapshot" has two defensible
+// readings - the clock at that instant, or that reading kept from going back behind earlier snapshots - and both
+// are accepted; with a clock that only moves forward they coincide.
+func (a *snapRun) lastSaveIs(got int64) bool {
+	want := a.lastSave
+	if got == want || got == want/1000 {
+		return true
+	}
+	if a.stepped && want != 0 {
+		m := want
+		for _, g := range a.good {
+			m = max(m, g.atMs)
+		}
+		return got == m || got == m/1000
+	}
+	return false
 }
 
 // pinAlt: a LASTSAVE reply that names one of the ambiguous interrupted snapshots settles which one is on disk.
